@@ -117,6 +117,8 @@ def generate(tier, rng):
     for ch in ['assign', 'byval', 'return', 'array', 'field', 'implicit']:
         for _ in range(n):
             cases.append(channel_case(rng, k, ch)); k += 1
+    for _ in range(25 if tier == 'quick' else 400):
+        cases.append(Case(gen.compound_loop_program(rng), limits=dict(steps=20000), meta=dict(gen='compound-in-loop', sample=False)))
     return cases
 
 def intrinsic(case, io, ia):
